@@ -48,9 +48,11 @@ def pick_species(rng, n, pool, allow_repeat=True):
     return out
 
 
-def num(rng, kind):
+def num(rng, kind, signed=False):
     if kind == "alpha":
-        return rng.choice([1e-10, 2.4e-10, 6.59e-11, 1.0, 9.99e-9, 1.3e-17])
+        v = rng.choice([1e-10, 2.4e-10, 6.59e-11, 1.0, 9.99e-9, 1.3e-17])
+        # a negative pre-factor uses the sign column of a fixed-width field (KIDA: e10.3; the Leeds column has no room for it)
+        return -v if signed and rng.random() < 0.25 else v
     if kind == "beta":
         return rng.choice([0.0, 0.5, -0.5, 2.5, -1.0])
     return rng.choice([0.0, 30450.0, 100.5, -5.0, 1.0e4])
@@ -82,7 +84,7 @@ def gen_abstract(rng, fmt):
     if fmt == "leeds" and npr == 5 and rng.random() < 0.5:
         pr_[4] = "CH3CH2CHO+"
     r = {"re": re_, "pr": pr_, "pseudo_re": [], "pseudo_pr": [],
-         "alpha": num(rng, "alpha"), "beta": num(rng, "beta"), "gamma": num(rng, "gamma"),
+         "alpha": num(rng, "alpha", signed=fmt in ("kida", "umist", "uclchem", "naunet")), "beta": num(rng, "beta"), "gamma": num(rng, "gamma"),
          "tmin": rng.choice([-9999.0, 10.0, 5.0, 100.0]), "tmax": rng.choice([9999.0, 300.0, 41000.0, 800.0])}
     shape = rng.random()
     if shape < 0.15:        # a lower bound only (the upper one is the "unbounded" sentinel): tmin > tmax
@@ -172,8 +174,9 @@ KROME_LAYOUTS = [["idx", "R", "R", "R", "P", "P", "P", "P", "Tmin", "Tmax", "rat
                  ["p", "p", "p", "r", "r", "idx", "rate"]]
 
 
-def gen_file(rng, fmt, n, layout=None):
-    """returns (lines incl. noise, expected list of dicts in file order)"""
+def gen_file(rng, fmt, n, layout=None, extra_markers=()):
+    """returns (lines incl. noise, expected list of dicts in file order); `extra_markers`: pseudo-elements the project declares
+    on top of the default ones"""
     lines, exp = [], []
     fmtkeys = None
     if fmt == "krome":
@@ -204,11 +207,11 @@ def gen_file(rng, fmt, n, layout=None):
             npk = sum(1 for k in fmtkeys if k.lower() == "p")
             r["re"], r["pr"] = r["re"][:nr], r["pr"][:npk]
         if rng.random() < 0.2 and fmt in ("kida", "naunet", "leeds") and len(r["re"]) < 3:
-            r["pseudo_re"] = [rng.choice(["CR", "CRP", "PHOTON", "CRPHOT"])]
+            r["pseudo_re"] = [rng.choice(["CR", "CRP", "PHOTON", "CRPHOT", *extra_markers, *extra_markers])]
         if rng.random() < 0.1 and fmt in ("kida", "naunet") and len(r["pr"]) < 5:
             r["pseudo_pr"] = ["Photon"]
         if fmt == "umist" and rng.random() < 0.3 and len(r["re"]) < 2:
-            r["pseudo_re"] = [rng.choice(["CRP", "PHOTON", "CRPHOT"])]
+            r["pseudo_re"] = [rng.choice(["CRP", "PHOTON", "CRPHOT", *extra_markers])]
         e = dict(r)
         e["idx"] = idx
         if fmt == "kida":
@@ -267,13 +270,17 @@ def fclose(a, b, rel=1e-3):
     return abs(a - b) <= rel * max(abs(a), abs(b), 1e-300)
 
 
-def read_network(fmt, path, surface_prefix=None):
+# a project's own marker list: some default markers dropped, two new ones declared
+PSEUDO_CUSTOM = ["CR", "CRP", "Photon", "PHOTON", "CRPHOT", "M", "UV", "FRZ"]
+
+
+def read_network(fmt, path, surface_prefix=None, pseudo=None):
     from naunet.network import Network
     from .ode_checks import reset_species_state
     reset_species_state()
     kw = {"species_kwargs": {"grain_symbol": "GRAIN", "surface_prefix": surface_prefix, "bulk_prefix": "@"}} if surface_prefix else {}
     with silenced():
-        return Network(filelist=[str(path)], fileformats=[fmt], elements=list(ELEMENTS), pseudo_elements=list(PSEUDO), **kw)
+        return Network(filelist=[str(path)], fileformats=[fmt], elements=list(ELEMENTS), pseudo_elements=list(pseudo or PSEUDO), **kw)
 
 
 def run_c07(argv):
@@ -286,12 +293,16 @@ def run_c07(argv):
     reqs, pend, kreqs, kpend = [], [], [], []
     for fmt in ["kida", "umist", "leeds", "krome", "uclchem", "naunet"]:
         for k in range(nfiles):
-            lines, exp = gen_file(rng, fmt, nlines, layout=3 + k)      # every layout opens a file sooner or later
+            # every third file belongs to a project with its own pseudo-element list
+            pseudo = PSEUDO_CUSTOM if k % 3 == 1 else PSEUDO
+            lines, exp = gen_file(rng, fmt, nlines, layout=3 + k,      # every layout opens a file sooner or later
+                                  extra_markers=("UV", "FRZ") if pseudo is PSEUDO_CUSTOM else ())
             f = chk.scratch / f"{fmt}{k}.txt"
             f.write_text("\n".join(lines) + "\n")
-            show = {"format": fmt, "lines": lines[:6]}
+            show = {"format": fmt, "lines": lines[:6], "pseudo_elements": pseudo}
+            chk.hist["pseudo:" + ("custom" if pseudo is PSEUDO_CUSTOM else "default")] += 1
             try:
-                net = read_network(fmt, f)
+                net = read_network(fmt, f, pseudo=pseudo)
             except Exception as e:
                 chk.violation({"kind": "read-raised", "format": fmt, "error": type(e).__name__},
                               f"reading a well-formed {fmt} file raised {type(e).__name__}: {e}", input=show)
@@ -327,11 +338,11 @@ def run_c07(argv):
                             "decoded": [[s.name for s in got[0].reactants], [s.name for s in got[0].products], got[0].alpha,
                                         got[0].temp_min, got[0].temp_max, int(got[0].reaction_type)]})
             if fmt != "krome":
-                reqs.append({"cmd": "decode", "fmt": fmt, "lines": lines, "pseudo": PSEUDO})
+                reqs.append({"cmd": "decode", "fmt": fmt, "lines": lines, "pseudo": pseudo})
                 pend.append((fmt, lines, got))
             else:
                 from naunet.reactions.kromereaction import KROMEReaction
-                kreqs.append({"cmd": "kromefile", "lines": f.read_text().splitlines(keepends=True), "pseudo": PSEUDO})
+                kreqs.append({"cmd": "kromefile", "lines": f.read_text().splitlines(keepends=True), "pseudo": pseudo})
                 kpend.append((lines, {"format": KROMEReaction.reacformat, "commons": list(KROMEReaction._user_commons),
                                       "vars": list(KROMEReaction._user_vars),
                                       "reactions": [{"idx": g.idxfromfile, "reactants": [s.name for s in g.reactants],
@@ -476,6 +487,30 @@ def run_c18(argv):
                 law_check(chk, rng, fmt, a, b, show)
             if [s.name for s in net.species] != [s.name for s in n1.species]:
                 chk.violation({"kind": "species-list-differs", "input_format": fmt}, "species list changed by the round trip", input=show)
+            # write -> edit -> write: what is written is the network as it is *now* (re-indexed, a coefficient and a window
+            # changed through the public attributes), not what an earlier write saw
+            w3 = chk.scratch / f"w3-{fmt}{k}.naunet"
+            try:
+                with silenced():
+                    net.reindex()
+                    e0 = net.reaction_list[-1]
+                    e0.alpha = 10.0 * e0.alpha if e0.alpha else 3.3e-9
+                    e0.temp_min, e0.temp_max = 12.0, 345.0
+                    net.write(w3, "naunet")
+                n3 = read_network("naunet", w3, "G" if fmt == "leeds" else None)
+            except Exception as e:
+                chk.hist["rewrite-refused:" + type(e).__name__] += 1
+                n3 = None
+            if n3 is not None:
+                chk.hist["write-edit-write"] += 1
+                va = [reaction_view(r) for r in net.reaction_list]
+                vb = [reaction_view(r) for r in n3.reaction_list]
+                if va != vb:
+                    i = next((i for i, (x, y) in enumerate(zip(va, vb)) if x != y), min(len(va), len(vb)))
+                    chk.violation({"kind": "rewrite-stale", "input_format": fmt},
+                                  "a network written, edited (reindex, alpha and window of one reaction) and written again reads back "
+                                  "as something else than the edited network", input=show,
+                                  in_memory=va[i] if i < len(va) else None, read_back=vb[i] if i < len(vb) else None)
             # model: the text written is the model's encoding of the printed fields
             for r in net.reaction_list[:6]:
                 reqs.append({"cmd": "encode_native", "idx": f"{r.idxfromfile}", "re": sorted(s.name for s in r.reactants),
